@@ -2,6 +2,7 @@
 package localcachedmap
 
 import (
+	"encoding/binary"
 	"sync"
 
 	"github.com/relex/slog-agent/util"
@@ -95,8 +96,10 @@ type LocalCachedMap[G any, L any] struct {
 //
 //nolint:revive
 func (lm *LocalCachedMap[G, L]) GetOrCreate(tempKeys []string, onCreating func(permKeys []string)) L {
+	// each key is prefixed by its length, so that ("ab","c") and ("a","bc") don't merge into the same key
 	tempMergedKey := lm.keyBuffer
 	for _, tkey := range tempKeys {
+		tempMergedKey = binary.AppendUvarint(tempMergedKey, uint64(len(tkey)))
 		tempMergedKey = append(tempMergedKey, tkey...)
 	}
 	lm.keyBuffer = tempMergedKey[:0]
